@@ -825,3 +825,54 @@ def check_union_canonical(facts, rep):
         rep.indet('E5.L9: UnionFind::union outside the recognised fragment: %s' % sorted(set(unknown))[:2])
     else:
         rep.ok('E5.L9-canonical-root', inst, '%d paths folded over the 9 orders of (root(i), root(j))' % n)
+
+
+def check_head_col(facts, rep):
+    """L10 (C11, "the leading block is triangular"): the first, sequential phase (find_fl_pivots) is acyclic because the
+    pivot it gives a row is the row's *left-most* stored entry - nothing of that row lies left of its pivot. MatrixStr::
+    head_col_in(i) therefore returns the first element of entries[i] (first / iter().next() / get(0)), not the first one
+    that satisfies some predicate (find, filter, skip_while, position): a pivot further right leaves entries to its left
+    and two such pivots can be mutually cyclic (top_sort panics)."""
+    import re
+    from symex import SymEx, show, strip
+    b = facts.bodies.get('yui_matrix::sparse::pivot::MatrixStr::head_col_in')
+    if b is None:
+        rep.indet('E5.L10: MatrixStr::head_col_in not found')
+        return
+    rep.saw(b)
+    inst = 'MatrixStr::head_col_in|the left-most stored entry of the row'
+    verdicts = set()
+    for p in SymEx(b, havoc_loops=True, max_paths=500).run():
+        if p.end != 'return' or p.ret is None:
+            continue
+        t = strip(p.ret)
+        names = []
+        by_site = {e.site: e for e in p.calls()}
+        while t[0] == 'call' and t[2]:
+            names.append(t[1].split('::')[-1])
+            a0 = t[2][0]
+            if a0[0] == 'mref' and len(t) > 3 and t[3] in by_site and by_site[t[3]].pre:
+                a0 = by_site[t[3]].pre[0]          # `it.find(..)` on a local iterator: the value the iterator had
+            t = strip(a0)
+        src = re.sub(r'#(?:i\d+:)?\d+\.\d+', '', show(t, -1000)).replace('&', '').replace('*', '')
+        if not re.match(r'^arg1\.entries\[arg2\]$|^arg1\.entries$', src) and 'index' not in names:
+            verdicts.add(('?', src[:60]))
+            continue
+        sel = [n for n in names if n not in ('copied', 'cloned', 'deref', 'iter', 'index', 'as_slice', 'into_iter')]
+        if sel in (['first'], ['next'], ['get']) and (sel != ['get'] or 'get(' in show(p.ret, -1000) and re.search(r', 0\)', show(p.ret, -1000))):
+            verdicts.add(('first', sel[0]))
+        elif sel and sel[0] in ('find', 'next') and any(x in names for x in ('find', 'filter', 'skip_while', 'position', 'find_map', 'filter_map')):
+            verdicts.add(('pred', [x for x in names if x in ('find', 'filter', 'skip_while', 'position', 'find_map', 'filter_map')][0]))
+        elif sel and sel[0] in ('last', 'max', 'next_back'):
+            verdicts.add(('last', sel[0]))
+        else:
+            verdicts.add(('?', '.'.join(reversed(names))[:60]))
+    if verdicts and all(v[0] == 'first' for v in verdicts):
+        rep.ok('E5.L10-head-column', inst, 'entries[i].%s()' % sorted(verdicts)[0][1])
+    elif any(v[0] in ('pred', 'last') for v in verdicts) and not any(v[0] == '?' for v in verdicts):
+        v = [v for v in verdicts if v[0] in ('pred', 'last')][0]
+        rep.violation('E5.L10-head-column', inst,
+                      'MatrixStr::head_col_in selects an entry of the row through `%s`, not the left-most one: the sequential phase may then choose a pivot with stored entries to its left, two such pivots can be mutually cyclic and the final top_sort panics ("Input is cyclic")' % v[1],
+                      where=b.where())
+    else:
+        rep.indet('E5.L10: head_col_in outside the recognised fragment: %s' % sorted(verdicts))
